@@ -39,12 +39,14 @@ package tally
 // C03 / C20: histograms
 
 //@ pred histWF(h *histogram) { h != nil && len(h.buckets) == len(h.samples) && len(h.buckets) >= 1 && (forall i int :: 0 <= i && i < len(h.samples) ==> h.samples[i].counter != nil) && (forall i, j int :: 0 <= i && i < j && j < len(h.samples) ==> h.samples[i].counter != h.samples[j].counter) }
+//@ pred dupEmptyV(h *histogram) { forall i int :: 0 < i && i < len(h.buckets) && !(h.buckets[i-1].valueUpperBound < h.buckets[i].valueUpperBound) ==> h.samples[i].counter.curr == h.samples[i].counter.prev }
+//@ pred dupEmptyD(h *histogram) { forall i int :: 0 < i && i < len(h.buckets) && !(h.buckets[i-1].durationUpperBound < h.buckets[i].durationUpperBound) ==> h.samples[i].counter.curr == h.samples[i].counter.prev }
 //@ pred valueWF(h *histogram) { histWF(h) && h.buckets[len(h.buckets)-1].valueUpperBound == math.MaxFloat64 && (forall i int :: 0 <= i && i < len(h.buckets) ==> !isNaN(h.buckets[i].valueUpperBound)) && (forall i, j int :: 0 <= i && i <= j && j < len(h.buckets) ==> h.buckets[i].valueUpperBound <= h.buckets[j].valueUpperBound) }
 //@ pred durationWF(h *histogram) { histWF(h) && h.buckets[len(h.buckets)-1].durationUpperBound == math.MaxInt64 && (forall i, j int :: 0 <= i && i <= j && j < len(h.buckets) ==> h.buckets[i].durationUpperBound <= h.buckets[j].durationUpperBound) }
 //@ pred cnt(h *histogram, i int) { h.samples[i].counter.curr }
 
 //@ func (*histogram).RecordValue
-//@   property C03
+//@   property C03, C11
 //@   requires histWF(h)
 //@   requires h.htype == valueHistogramType ==> valueWF(h)
 //@   modifies all counter.curr
@@ -54,13 +56,16 @@ package tally
 //@   ensures @one_bucket h.htype == valueHistogramType ==> 0 <= b && b < len(h.buckets) && cnt(h, b) == wrap64(old(cnt(h, b)) + 1) && (forall c *counter :: c != h.samples[b].counter ==> c.curr == old(c.curr))
 //@   case finite: requires !isNaN(value) && !isInf(value, 1)
 //@     ensures @least_upper h.htype == valueHistogramType ==> h.buckets[b].valueUpperBound >= value && (forall k int :: 0 <= k && k < b ==> h.buckets[k].valueUpperBound < value)
+//@     ensures @later_duplicate_buckets_stay_empty h.htype == valueHistogramType && old(dupEmptyV(h)) ==> dupEmptyV(h)
 //@   case posinf: requires isInf(value, 1)
 //@     ensures @last_bucket h.htype == valueHistogramType ==> b == len(h.samples) - 1
+//@     ensures @later_duplicate_buckets_stay_empty h.htype == valueHistogramType && old(dupEmptyV(h)) && (len(h.buckets) < 2 || h.buckets[len(h.buckets)-2].valueUpperBound < h.buckets[len(h.buckets)-1].valueUpperBound) ==> dupEmptyV(h)
 //@   case nan: requires isNaN(value)
 //@     ensures @last_bucket h.htype == valueHistogramType ==> b == len(h.samples) - 1
+//@     ensures @later_duplicate_buckets_stay_empty h.htype == valueHistogramType && old(dupEmptyV(h)) && (len(h.buckets) < 2 || h.buckets[len(h.buckets)-2].valueUpperBound < h.buckets[len(h.buckets)-1].valueUpperBound) ==> dupEmptyV(h)
 
 //@ func (*histogram).RecordDuration
-//@   property C03
+//@   property C03, C11
 //@   requires histWF(h)
 //@   requires h.htype == durationHistogramType ==> durationWF(h)
 //@   modifies all counter.curr
@@ -69,6 +74,7 @@ package tally
 //@   ensures @wrong_type_ignored h.htype != durationHistogramType ==> (forall c *counter :: c.curr == old(c.curr))
 //@   ensures @one_bucket h.htype == durationHistogramType ==> 0 <= b && b < len(h.buckets) && cnt(h, b) == wrap64(old(cnt(h, b)) + 1) && (forall c *counter :: c != h.samples[b].counter ==> c.curr == old(c.curr))
 //@   ensures @least_upper h.htype == durationHistogramType ==> h.buckets[b].durationUpperBound >= value && (forall k int :: 0 <= k && k < b ==> h.buckets[k].durationUpperBound < value)
+//@   ensures @later_duplicate_buckets_stay_empty h.htype == durationHistogramType && old(dupEmptyD(h)) ==> dupEmptyD(h)
 
 //@ func (*counter).Inc
 //@   property C01
@@ -1124,4 +1130,47 @@ package tally
 //@ func NoOpSanitizeFn
 //@   property C06
 //@   ensures @identity result == v
+//@   ensures @quiet quiet()
+
+// ---------------------------------------------------------------------------
+// C11: snapshots
+
+
+//@ func (*histogram).snapshotValues
+//@   property C11
+//@   allocs
+//@   requires h != nil
+//@   ensures @quiet quiet()
+//@   case other: requires h.htype != valueHistogramType
+//@     ensures @wrong_kind_has_no_values result == nil
+//@   case value: requires h.htype == valueHistogramType && valueWF(h) && dupEmptyV(h)
+//@     ensures @fresh_map result != nil && fresh(result)
+//@     ensures @every_bound_maps_to_its_count forall i int :: 0 <= i && i < len(h.buckets) && (i == 0 || h.buckets[i-1].valueUpperBound < h.buckets[i].valueUpperBound) ==> (h.buckets[i].valueUpperBound in result) && result[h.buckets[i].valueUpperBound] == wrap64(h.samples[i].counter.curr - h.samples[i].counter.prev)
+//@     ensures @only_bounds_are_keys forall k float64 :: k in result ==> (exists j int :: 0 <= j && j < len(h.buckets) && same(k, h.buckets[j].valueUpperBound))
+//@     loop 1 invariant @idx 0 <= rangeindex + 1 && rangeindex + 1 <= len(h.buckets) && vals != nil && fresh(vals) && quiet()
+//@     loop 1 invariant @done_so_far forall i int :: 0 <= i && i <= rangeindex && (i == 0 || h.buckets[i-1].valueUpperBound < h.buckets[i].valueUpperBound) ==> (h.buckets[i].valueUpperBound in vals) && vals[h.buckets[i].valueUpperBound] == wrap64(h.samples[i].counter.curr - h.samples[i].counter.prev)
+//@     loop 1 invariant @keys_so_far forall k float64 :: k in vals ==> (exists j int :: 0 <= j && j <= rangeindex && same(k, h.buckets[j].valueUpperBound))
+
+//@ func (*histogram).snapshotDurations
+//@   property C11
+//@   allocs
+//@   requires h != nil
+//@   ensures @quiet quiet()
+//@   case other: requires h.htype != durationHistogramType
+//@     ensures @wrong_kind_has_no_durations result == nil
+//@   case duration: requires h.htype == durationHistogramType && durationWF(h) && dupEmptyD(h)
+//@     ensures @fresh_map result != nil && fresh(result)
+//@     ensures @every_bound_maps_to_its_count forall i int :: 0 <= i && i < len(h.buckets) && (i == 0 || h.buckets[i-1].durationUpperBound < h.buckets[i].durationUpperBound) ==> (h.buckets[i].durationUpperBound in result) && result[h.buckets[i].durationUpperBound] == wrap64(h.samples[i].counter.curr - h.samples[i].counter.prev)
+//@     ensures @only_bounds_are_keys forall k time.Duration :: k in result ==> (exists j int :: 0 <= j && j < len(h.buckets) && k == h.buckets[j].durationUpperBound)
+//@     loop 1 invariant @idx 0 <= rangeindex + 1 && rangeindex + 1 <= len(h.buckets) && durations != nil && fresh(durations) && quiet()
+//@     loop 1 invariant @done_so_far forall i int :: 0 <= i && i <= rangeindex && (i == 0 || h.buckets[i-1].durationUpperBound < h.buckets[i].durationUpperBound) ==> (h.buckets[i].durationUpperBound in durations) && durations[h.buckets[i].durationUpperBound] == wrap64(h.samples[i].counter.curr - h.samples[i].counter.prev)
+//@     loop 1 invariant @keys_so_far forall k time.Duration :: k in durations ==> (exists j int :: 0 <= j && j <= rangeindex && k == h.buckets[j].durationUpperBound)
+
+//@ func (*timer).snapshot
+//@   property C11
+//@   allocs
+//@   requires t != nil
+//@   ensures @independent_copy fresh(result) && len(result) == len(t.unreported.values)
+//@   ensures @all_recorded_values_in_order forall i int :: 0 <= i && i < len(result) ==> result[i] == t.unreported.values[i]
+//@   ensures @timer_untouched len(t.unreported.values) == old(len(t.unreported.values)) && (forall i int :: 0 <= i && i < len(t.unreported.values) ==> t.unreported.values[i] == old(t.unreported.values[i]))
 //@   ensures @quiet quiet()
